@@ -139,25 +139,30 @@ for mode in (2, 3):
 OBLIGATIONS.append(edit_cfg(4, (1, 1, 1, 8, 8, 2, 2, 31, 0, 0, 0)))
 
 # ---- f: CURRENT ----
-OBLIGATIONS.append(Obl("f.encode-int-all-values", "C17/current.c",
-                       real=["filename.c", "util/strutil.c", "util/slice.c"],
-                       kit=["vp_nondet.c", "vp_mem.c", "vp_sprintf.c"],
-                       defs={"VP_MODE": 1}, unwind=24, timeout=600,
-                       functions=["ldb_encode_int", "ldb_size_int"],
-                       desc="ldb_encode_int(x, pad 6) == reference zero-padded decimal for every 64-bit x",
-                       bounds="all 64-bit values"))
-for d, tier in ((6, "quick"), (7, "quick"), (10, "quick"), (20, "quick"), (8, "thorough"), (13, "thorough"), (19, "thorough")):
-    OBLIGATIONS.append(Obl("f.set-current-file-D%d" % d, "C17/current.c",
+for d, tier in ((6, "quick"), (7, "thorough")):
+    OBLIGATIONS.append(Obl("f.encode-int-D%d" % d, "C17/current.c", tier=tier,
                            real=["filename.c", "util/strutil.c", "util/slice.c"],
                            kit=["vp_nondet.c", "vp_mem.c", "vp_sprintf.c"],
-                           defs={"VP_DIGITS": d}, unwind=50,
-                           replace_calls=["ldb_encode_int:vp_encode_int"],
+                           defs={"VP_MODE": 1, "VP_DIGITS": d}, unwind=24, timeout=600,
+                           functions=["ldb_encode_int", "ldb_size_int"],
+                           desc="ldb_encode_int(x, pad 6) writes the zero-padded decimal numeral of x (Horner value == x, length, NUL)",
+                           bounds="every x with %s decimal digits" % ("<= 6" if d == 6 else d)))
+# set_current_file: the number is concrete per query (a symbolic number makes every C string length symbolic
+# and the query does not finish); the env-call failure pattern and codes are symbolic
+SETCUR_NUMS = [("1", "quick"), ("999999", "quick"), ("1000000", "quick"), ("4294967296", "quick"),
+               ("18446744073709551615", "quick"), ("42", "thorough"), ("123456", "thorough"),
+               ("12345678", "thorough"), ("9999999999", "thorough"), ("10000000000000000000", "thorough")]
+for num, tier in SETCUR_NUMS:
+    OBLIGATIONS.append(Obl("f.set-current-file-%s" % num, "C17/current.c",
+                           real=["filename.c", "util/strutil.c", "util/slice.c"],
+                           kit=["vp_nondet.c", "vp_mem.c", "vp_sprintf.c"],
+                           defs={"VP_NUM": "VP_U64C(%s)" % num}, unwind=50,
                            timeout=600, tier=tier,
                            functions=["ldb_set_current_file", "ldb_temp_filename", "ldb_current_filename",
-                                      "ldb_join", "ldb_slice_set_str", "make_filename"],
+                                      "ldb_encode_int", "ldb_join", "ldb_slice_set_str", "make_filename"],
                            desc="temp <db>/NNNNNN.dbtmp written with 'MANIFEST-NNNNNN\\n' and should_sync=1, then renamed to CURRENT; "
                                 "any failure: temp removed, error returned; CURRENT never written/removed directly",
-                           bounds="descriptor number: every value with %s decimal digits (> 0); each env call fails or not, any code; db name fixed" % ("<= 6" if d == 6 else d)))
+                           bounds="descriptor number %s; each env call fails or not with any non-zero code; db name fixed" % num))
 
 META = {
     "level": "model_checking",
